@@ -18,11 +18,14 @@
   Modelled, not verified (exercised on disk by the harness as root: lstat/readlink/xattr/content
   snapshots, both digests, caidx+store, tar-stream input, gnu-tar/mtree output): `filepath.Walk`
   order and the reading side of `LocalFS`, `archive/tar`, chunking of the archive (C02) and chunk
-  transport (C03); ownership/permissions/xattrs are one abstract stamp in the file-system model.
+  transport (C03).  The file-system model carries owner, the twelve mode bits and the extended
+  attributes of every object (`chown` clearing set-id bits of non-directories, `user.*` attributes
+  refused on links and device nodes); the creation mode under the process's umask is abstract (`none`).
 -/
 import Desync.Proofs.TarTreeRoundTrip
 import Desync.Proofs.ModeProofs
 import Desync.Proofs.LocalFSRoundTrip
+import Desync.Proofs.LocalFSAttrOrder
 
 namespace Desync.C05
 open Desync
@@ -92,20 +95,44 @@ example : Tree.WFList exRoot.path [exRoot.path] [Tree.dir exDir [Tree.leaf exFil
     option set and every file system in which the destination does not exist yet below real
     directories: `UnTar` of the archive `Tar` writes returns success, and beneath the destination
     the file system holds exactly the tree — every directory, file, symlink and device node at its
-    path with its contents / target / device numbers, the attribute stamp the options ask for, and
-    the archived modification time set explicitly, *also on directories that got children after
-    they were created* (`finish` re-applies them; the defect D17 and its repair). -/
+    path with its contents / target / device numbers, the archived owner and extended attributes
+    (unless `noSameOwner`), the archived permission, set-id and sticky bits (unless
+    `noSamePermissions`; set-id bits survive because `chown` comes before `chmod`): `LFS.attrOfRec`,
+    `LFS.linkAttrOfRec` for links, and the archived modification time set explicitly, *also on
+    directories that got children after they were created* (`finish` re-applies them; the defect D17
+    and its repair).  `hfit`: when owner and xattrs are restored, no symlink or device record carries a
+    `user.*` extended attribute — the kernel refuses those and `UnTar` fails
+    (`unpacking_link_with_user_xattr_fails`).  Distinct xattr keys per record are part of `XattrsOK`. -/
 theorem unpacking_creates_the_tree (o : LFS.Opts) (root : List LFS.Name) (fs : LFS.FS) (r : FileRec)
     (cs : List Tree) (b : Bytes)
     (hroot : LFS.RootOK fs root) (hshort : LFS.Short root)
     (hfresh : ∀ p, root <+: p → fs.get p = none)
     (hrk : r.kind = .dir) (hrx : XattrsOK r.xattrs) (hsize : 16 + (cs.length + 1) * 24 < 2 ^ 64)
     (hcs : Tree.WFList r.path [r.path] cs) (hnames : (Tree.dir r cs).Names)
+    (hfit : ∀ f ∈ (Tree.dir r cs).records, LFS.XattrsFit o f)
     (hb : tarStream (Tree.dir r cs).records = some b) :
     (LFS.untarFS o root fs b).2 = true ∧
     ∀ p, root <+: p → ((LFS.untarFS o root fs b).1).get p =
-      (((root, LFS.Obj.dir (LFS.stampOf o r) (LFS.mtimeOf r)) :: Tree.expectList o root cs).lookup p) :=
-  LFS.untar_creates_tree o root fs r cs b hroot hshort hfresh hrk hrx hsize hcs hnames hb
+      (((root, LFS.Obj.dir (LFS.attrOfRec o r) (LFS.mtimeOf r)) :: Tree.expectList o root cs).lookup p) :=
+  LFS.untar_creates_tree o root fs r cs b hroot hshort hfresh hrk hrx hsize hcs hnames hfit hb
+
+/-- the hypothesis `hfit` is needed: `CreateSymlink` of a node with a `user.*` extended attribute fails
+    when owner and xattrs are restored (EPERM from `lsetxattr`; the link itself exists by then) -/
+theorem unpacking_link_with_user_xattr_fails (o : LFS.Opts) (root : List LFS.Name) (s : LFS.LState)
+    (name : Bytes) (m : Meta) (target : Bytes) (h : LFS.Good s.fs (LFS.dstOf root name))
+    (hn : s.fs.get (LFS.dstOf root name) = none) (hO : o.noSameOwner = false)
+    (hx : ∃ kv ∈ m.xattrs, LFS.isUserXattr kv.1 = true) :
+    ∃ f, LFS.createSymlink o root s name m target = .error f :=
+  LFS.createSymlink_user_xattr_fails o root s name m target h hn hO hx
+
+/-- the order of the calls in `setPerms` matters: `chmod` 04755 followed by `chown` loses the set-user-ID
+    bit of a regular file, `chown` followed by `chmod` (what localfs.go does) keeps it -/
+theorem chown_must_come_before_chmod :
+    LFS.AttrOrder.objAfter (LFS.AttrOrder.chmodThenChown LFS.AttrOrder.fsFile 0o4755 1000 100) =
+      some (.file [97] { owner := some (1000, 100), mode := some 0o755 } none) ∧
+    LFS.AttrOrder.objAfter (LFS.AttrOrder.chownThenChmod LFS.AttrOrder.fsFile 0o4755 1000 100) =
+      some (.file [97] { owner := some (1000, 100), mode := some 0o4755 } none) :=
+  LFS.AttrOrder.chmod_then_chown_loses_setuid
 
 /-- the loop of `UnTar` onto `LocalFS` is the node list of `untar` applied in order, then `finish` -/
 theorem untar_on_disk_is_untar_then_apply (o : LFS.Opts) (root : List LFS.Name) (fs : LFS.FS) (b : Bytes)
